@@ -1,9 +1,11 @@
+pub mod capi;
 pub mod echo;
 
 pub type LaneFn = fn(&str) -> String;
 
 pub fn find(name: &str) -> Option<LaneFn> {
     Some(match name {
+        "capi" => capi::run,
         "echo" => echo::run,
         _ => return None,
     })
